@@ -15,14 +15,16 @@ type Timer struct {
 	armed    bool
 	label    string
 	fire     func() // runs in scheduler context; must not block
+	ch       *Chan  // channel of a time.After timer
 	vc       vclock
 }
 
 // TimerInfo describes an armed timer (for canonical state keys and explicit firing in G-mode).
 type TimerInfo struct {
-	ID    int
-	Label string
-	In    time.Duration // relative deadline
+	ID      int
+	Label   string
+	In      time.Duration // relative deadline
+	Waiters []int         // ids of the threads waiting on the timer's channel
 }
 
 func callerLabel() string {
@@ -142,7 +144,13 @@ func Timers() []TimerInfo {
 	var out []TimerInfo
 	for _, tm := range s.timers {
 		if tm.armed {
-			out = append(out, TimerInfo{ID: tm.id, Label: tm.label, In: tm.deadline - s.now})
+			ti := TimerInfo{ID: tm.id, Label: tm.label, In: tm.deadline - s.now}
+			if tm.ch != nil {
+				for _, w := range tm.ch.recvq {
+					ti.Waiters = append(ti.Waiters, w.t.id)
+				}
+			}
+			out = append(out, ti)
 		}
 	}
 	return out
@@ -202,5 +210,6 @@ func BindTimerChan[T any](ch chan T, tm *Timer) {
 	}
 	if c := s.chanFor(chanPtr(ch), cap(ch), ch); c != nil {
 		c.timer = tm
+		tm.ch = c
 	}
 }
